@@ -28,8 +28,60 @@ from .c13 import syntactic_param_writes
 PROP = 'C12'
 
 
+def _sentinel_split(f):
+    """the other spelling of "successors exhausted": inside a loop,
+           w = next(<iterator>, SENTINEL)
+           if w is not SENTINEL: <DFS step> ; continue
+           <post-order step>
+    (or `if w is SENTINEL: <post-order step> else: <DFS step>`)
+    -> (DFS step as statements starting with `w = next(<iterator>)`,
+        post-order step) or None"""
+    for loop in ast.walk(f.node):
+        if not isinstance(loop, (ast.While, ast.For)):
+            continue
+        body = loop.body
+        for i, st in enumerate(body[:-1]):
+            if not (isinstance(st, ast.Assign) and len(st.targets) == 1 and
+                    isinstance(st.targets[0], ast.Name) and
+                    isinstance(st.value, ast.Call) and
+                    isinstance(st.value.func, ast.Name) and
+                    st.value.func.id == 'next' and
+                    len(st.value.args) == 2 and not st.value.keywords and
+                    isinstance(st.value.args[1], ast.Name)):
+                continue
+            w, sent = st.targets[0].id, st.value.args[1].id
+            nx = body[i + 1]
+            if not (isinstance(nx, ast.If) and
+                    isinstance(nx.test, ast.Compare) and
+                    len(nx.test.ops) == 1 and
+                    isinstance(nx.test.left, ast.Name) and
+                    nx.test.left.id == w and
+                    isinstance(nx.test.comparators[0], ast.Name) and
+                    nx.test.comparators[0].id == sent):
+                continue
+            first = ast.Assign(
+                targets=[ast.Name(id=w, ctx=ast.Store())],
+                value=ast.Call(func=ast.Name(id='next', ctx=ast.Load()),
+                               args=[st.value.args[0]], keywords=[]))
+            ast.copy_location(first, st)
+            ast.fix_missing_locations(first)
+            rest = body[i + 2:]
+            if isinstance(nx.test.ops[0], ast.IsNot) and nx.body and \
+                    isinstance(nx.body[-1], ast.Continue) and not nx.orelse:
+                return [first] + nx.body[:-1], rest
+            if isinstance(nx.test.ops[0], ast.IsNot) and nx.orelse and \
+                    not rest:
+                return [first] + nx.body, nx.orelse
+            if isinstance(nx.test.ops[0], ast.Is) and nx.orelse and not rest:
+                return [first] + nx.orelse, nx.body
+            if isinstance(nx.test.ops[0], ast.Is) and nx.body and \
+                    isinstance(nx.body[-1], ast.Continue) and not nx.orelse:
+                return [first] + rest, nx.body[:-1]
+    return None
+
+
 def post_order_block(f):
-    """the handler that runs when the successors of the top of the DFS stack
+    """the block that runs when the successors of the top of the DFS stack
     are exhausted"""
     for n in ast.walk(f.node):
         if isinstance(n, ast.Try):
@@ -37,8 +89,12 @@ def post_order_block(f):
                 if h.type is not None and \
                         'StopIteration' in ast.unparse(h.type):
                     return h.body
-    raise Inconclusive('R-SCC-1', 'post-order block (except StopIteration) '
-                       'not found', f.where())
+    sp = _sentinel_split(f)
+    if sp is not None:
+        return sp[1]
+    raise Inconclusive('R-SCC-1', 'post-order block (except StopIteration, '
+                       'or the branch taken when next(it, SENTINEL) gives '
+                       'the sentinel) not found', f.where())
 
 
 class _H(GraphHooks):
@@ -227,12 +283,13 @@ def rule_scc(prog):
     D_role = []
     for (p, s) in res:
         ys = p.heap[p.heap[fo].vars['$yield'].oid].parts
-        root = [pol for (c, pol) in p.pc if isinstance(c, App) and
-                c.op == 'cmp' and c.args[0].v == '==' and
-                _item(L, v) in c.args[1:]]
-        roottest = [c for (c, pol) in p.pc if isinstance(c, App) and
-                    c.op == 'cmp' and c.args[0].v == '==' and
-                    _item(L, v) in c.args[1:]]
+        # `a != b` (false) is `a == b` (true)
+        eqs = [(App('cmp', Const('=='), c.args[1], c.args[2]),
+                pol if c.args[0].v == '==' else not pol)
+               for (c, pol) in p.pc if isinstance(c, App) and
+               c.op == 'cmp' and c.args[0].v in ('==', '!=')]
+        root = [pol for (c, pol) in eqs if _item(L, v) in c.args[1:]]
+        roottest = [c for (c, pol) in eqs if _item(L, v) in c.args[1:]]
         closes = [e for e in p.log if e.kind == 'mutate' and
                   closed is not None and e.target == closed]
         pushes = [e for e in p.log if e.kind == 'mutate' and
@@ -356,6 +413,9 @@ def discovery_block(f):
                 if h.type is not None and \
                         'StopIteration' in ast.unparse(h.type):
                     return n.body
+    sp = _sentinel_split(f)
+    if sp is not None:
+        return sp[0]
     raise Inconclusive('R-SCC-6', 'DFS step not found', f.where())
 
 
